@@ -1,11 +1,15 @@
 package props
 
 import (
+	"context"
 	"encoding/json"
 	"fmt"
 	"os"
+	"os/exec"
 	"path/filepath"
+	"runtime"
 	"strings"
+	"time"
 
 	"verif/mc/engine"
 	"verif/mc/fixture"
@@ -19,6 +23,9 @@ type C12Case struct {
 	Config2 int      `json:"config2,omitempty"` // S3: the second thread's configuration
 	Mode    string   `json:"mode"`              // S1 | S2 | S3
 	Formats []string `json:"formats"`
+	// CPUs > 0: the scenario is explored in a process that sees exactly this many processors (the case re-executes
+	// itself under taskset): limits that code derives from runtime.NumCPU() become reachable with two threads
+	CPUs int `json:"cpus,omitempty"`
 }
 
 // configOf returns the configuration index thread i packages from.
@@ -150,6 +157,9 @@ func sharingConfigs(env *engine.Env) []fixture.Doc {
 		// debconf members (a packager may want to add what they need)
 		writeScripts(t, "deb", "normal")
 		d["recommends"] = []any{"$NFPM_VERIF_UNSET", "r1", "${NFPM_VERIF_UNSET}", "r2"}
+		// references whose value holds dollar signs (data, not expanded a second time by anything that runs later)
+		d["description"] = "A package that ${NFPM_VERIF_DOLLAR}."
+		d["vendor"] = "${NFPM_VERIF_DOLLAR}"
 		d["deb"] = map[string]any{"triggers": map[string]any{
 			"interest": []any{"trig-a", "trig-shared", "trig-b"}, "interest_noawait": []any{"trig-shared"},
 			"activate": []any{"trig-c", "trig-shared2", "trig-d"}, "activate_noawait": []any{"trig-shared2", "trig-c"},
@@ -314,6 +324,14 @@ func init() {
 					}
 				}
 			}
+			// the same-format pairs and one mixed pair of the changelog configuration in a process with two processors
+			for _, mode := range []string{"S1", "S2"} {
+				for _, pr := range [][]string{{"deb", "deb"}, {"rpm", "rpm"}, {"apk", "apk"}, {"archlinux", "archlinux"}, {"ipk", "ipk"}, {"deb", "rpm"}} {
+					if !yield(C12Case{Config: 5, Mode: mode, Formats: pr, CPUs: 2}) {
+						return
+					}
+				}
+			}
 			if !yield(C12Case{Mode: "racepass"}) {
 				return
 			}
@@ -370,6 +388,9 @@ func checkC12(env *engine.Env, ci any) engine.Outcome {
 		out.HarnessError = "C12 schedule exploration needs the woven build: " + wovenNote()
 		return out
 	}
+	if c.CPUs > 0 && runtime.NumCPU() != c.CPUs {
+		return reexecWithCPUs(env, c)
+	}
 	return checkC12Woven(env, c)
 }
 
@@ -386,4 +407,68 @@ func raceSite(rep string) string {
 		}
 	}
 	return "unknown"
+}
+
+// reexecWithCPUs runs one case in a child process bound to c.CPUs processors (`mc replay` of a case file) and turns
+// what it prints back into an outcome. A child that cannot be started, crashes or exceeds the (generous) time limit
+// is a harness error, never a violation.
+func reexecWithCPUs(env *engine.Env, c C12Case) engine.Outcome {
+	var out engine.Outcome
+	ts, err := exec.LookPath("taskset")
+	if err != nil {
+		out.HarnessError = "taskset not found: scenarios bound to few processors cannot be run"
+		return out
+	}
+	if runtime.NumCPU() < c.CPUs {
+		out.HarnessError = fmt.Sprintf("this process sees %d processors, the case wants %d", runtime.NumCPU(), c.CPUs)
+		return out
+	}
+	cj, _ := json.Marshal(c)
+	rf, _ := json.Marshal(map[string]any{"property": "C12", "tier": env.Tier, "signature": "", "detail": "", "case": json.RawMessage(cj)})
+	f, err := os.CreateTemp(env.Scratch, "c12-cpus-*.json")
+	if err != nil {
+		out.HarnessError = err.Error()
+		return out
+	}
+	f.Write(rf)
+	f.Close()
+	defer os.Remove(f.Name())
+	self, err := os.Executable()
+	if err != nil {
+		out.HarnessError = err.Error()
+		return out
+	}
+	ctx, cancel := context.WithTimeout(context.Background(), 20*time.Minute)
+	defer cancel()
+	cmd := exec.CommandContext(ctx, ts, "-c", fmt.Sprintf("0-%d", c.CPUs-1), self, "replay", f.Name())
+	cmd.Env = append(os.Environ(), "VERIF_SCRATCH="+env.Scratch)
+	b, err := cmd.CombinedOutput()
+	text := string(b)
+	out.Key = fmt.Sprintf("cpus=%d:%s:%v:%d", c.CPUs, c.Mode, c.Formats, c.Config)
+	blocks := strings.Split(text, "VIOLATION property=C12 replay=")
+	if i := strings.Index(text, "HARNESS-ERROR"); i >= 0 {
+		out.HarnessError = "child: " + strings.TrimSpace(text[i:])
+		return out
+	}
+	if len(blocks) == 1 {
+		if err != nil || !strings.Contains(text, "holds on this case") {
+			out.HarnessError = fmt.Sprintf("child process bound to %d processors did not finish the case: %v: %s", c.CPUs, err, trunc(text, 600))
+			return out
+		}
+		out.Nontrivial = true
+		out.Transitions = 1
+		return out
+	}
+	out.Nontrivial = true
+	for _, blk := range blocks[1:] {
+		sig, detail := "concurrency:child", blk
+		if i := strings.Index(blk, "signature="); i >= 0 {
+			rest := blk[i+len("signature="):]
+			if j := strings.IndexByte(rest, '\n'); j >= 0 {
+				sig, detail = rest[:j], rest[j+1:]
+			}
+		}
+		out.Violations = append(out.Violations, engine.Violation{Sig: strings.TrimSpace(sig) + ":cpus=" + fmt.Sprint(c.CPUs), Detail: fmt.Sprintf("in a process bound to %d processors:\n%s", c.CPUs, detail)})
+	}
+	return out
 }
